@@ -52,6 +52,9 @@ extern double lsv_tol; extern int lsv_absent;
 #define CHECK_LE(a, b, label) do{ double lsv_a_=(a), lsv_b_=(b); double lsv_s_=fmax(1.0, fmax(fabs(lsv_a_), fabs(lsv_b_))); \
   if(!(lsv_a_ <= lsv_b_ + lsv_tol*lsv_s_)){ printf("REPRODUCED %s: %.17g > %.17g (%s:%d)\n", label, lsv_a_, lsv_b_, __FILE__, __LINE__); fflush(stdout); exit(1);} }while(0)
 #define WITNESS() ((void)0)
+#define __CPROVER_w_ok(p, n) 1
+#define __CPROVER_r_ok(p, n) 1
+#define __CPROVER_same_object(a, b) ((const void*)(a)==(const void*)(b))
 #define __CPROVER_assume(c) ASSUME(c)
 #define __CPROVER_assert(c, l) CHECK(c, l)
 #ifdef LSV_MAIN
